@@ -103,7 +103,11 @@ func VfOptimisticProvide() {
 	vfHashBits(vfParam("W"))
 	vfHashFixed()
 	vfNear = map[peer.ID]bool{}
-	e, ids, _ := vfClientEnv(P, P)
+	K := P
+	if vfParam("EXTRA") == 1 {
+		K = P - 1 // one more peer than the bucket size: the lookup result is the K nearest live peers
+	}
+	e, ids, _ := vfClientEnv(K, P)
 	d := e.dht
 	d.enableOptProv = true
 	d.optProvJobsPool = make(chan struct{}, 1+vfChoose("jobsPool", 2))
@@ -123,17 +127,34 @@ func VfOptimisticProvide() {
 	}
 	slow := map[peer.ID]bool{}
 	fails := map[peer.ID]bool{}
+	dead := map[peer.ID]bool{}
 	var adds []vfSent
 	delivered := map[peer.ID]int{}
 	e.sender.reply = func(rctx context.Context, p peer.ID, req *pb.Message) (*pb.Message, error) {
 		switch req.Type {
 		case pb.Message_FIND_NODE:
-			return pb.NewMessage(pb.Message_FIND_NODE, nil, 0), nil
+			if _, ok := dead[p]; !ok {
+				dead[p] = vfParam("EXTRA") == 1 && vfBool("peer.isDead")
+			}
+			if dead[p] {
+				return nil, errors.New("rpc failed")
+			}
+			resp := pb.NewMessage(pb.Message_FIND_NODE, nil, 0)
+			if vfParam("EXTRA") == 1 {
+				// every live peer knows the whole network
+				for _, q := range ids {
+					resp.CloserPeers = append(resp.CloserPeers, &pb.Message_Peer{Id: []byte(q), Addrs: [][]byte{vfAddr(60).Bytes()}})
+				}
+			}
+			return resp, nil
 		case pb.Message_ADD_PROVIDER:
 			adds = append(adds, vfSent{p, req})
+			if _, ok := dead[p]; !ok {
+				dead[p] = vfParam("EXTRA") == 1 && vfBool("peer.isDead")
+			}
 			if _, ok := slow[p]; !ok {
 				slow[p] = vfBool("recipient.slow")
-				fails[p] = vfBool("recipient.fails")
+				fails[p] = dead[p] || (vfParam("EXTRA") == 0 && vfBool("recipient.fails"))
 			}
 			if slow[p] {
 				// a slow but healthy recipient: answers after 2 s unless the request is abandoned
@@ -161,6 +182,37 @@ func VfOptimisticProvide() {
 	vfAdvance(5 * time.Second)
 	vfWaitIdle()
 	vfAssert(err == nil, "optprovide/succeeds-when-the-lookup-succeeds")
+	if vfParam("EXTRA") == 1 {
+		// One peer more than the bucket size, some of them dead. Which peers the walk
+		// learns depends on when it stops, so the oracle is a necessary condition: of
+		// the live peers the operation talked to, at least min(K, that many) get the
+		// record - a dead early recipient does not use up somebody else's place - and
+		// nobody gets it twice.
+		talkedTo, got := 0, 0
+		for _, p := range ids {
+			n := 0
+			for _, s := range adds {
+				if s.to == p {
+					n++
+				}
+			}
+			vfAssert(n <= 1, "optprovide/at-most-one-announcement-per-peer")
+			if _, asked := dead[p]; asked && !dead[p] {
+				talkedTo++
+				if n == 1 {
+					got++
+				}
+			}
+		}
+		want := K
+		if talkedTo < K {
+			want = talkedTo
+		}
+		vfAssert(got >= want, "optprovide/a-dead-recipient-does-not-use-up-the-place-of-a-live-one")
+		vfAssert(vfLiveGoroutines() == 1, "optprovide/no-goroutine-left-behind")
+		vfReach("optprovide/provide-extra-end")
+		return
+	}
 	for _, p := range ids {
 		n := 0
 		for _, s := range adds {
